@@ -198,6 +198,10 @@ func (r *runZeroConsumersClose) run() {
 		hlsable := r.s.Hlsable()
 		if hlsable == nil || time.Now().Sub(hlsable.LastAccessTime()) >= r.d {
 			r.closed = true
+			// 先从注册表移除(仅当注册的仍是该流)，避免 Get 返回已关闭的流
+			if si, ok := streams.Load(r.s.path); ok && si.(*Stream) == r.s {
+				streams.Delete(r.s.path)
+			}
 			r.s.close(r.closedStats)
 		}
 	}
